@@ -110,6 +110,29 @@ struct UserSparseModel : UserModel {
     const SpC & getObservationFunction(size_t a) const { return Om[a]; }
     const SpC & getRewardFunction() const { return Rm; }
 };
+// Mixed storage, which the IsModelEigen concept allows as well: dense transitions with sparse observations, and the reverse
+// (`sparseColumn.cwiseProduct(denseVector)`, `denseRow * sparse`, `sparse * diagonal` … — operator combinations the library's own models never produce).
+struct UserMixedA : UserModel {      // dense T (column-major), sparse O (column-major)
+    std::vector<Eigen::MatrixXd> Tm; std::vector<UserSparseModel::SpC> Om; Eigen::MatrixXd Rm;
+    explicit UserMixedA(const Tables * tt) : UserModel{tt} {
+        UserEigenModel d(tt); UserSparseModel sp(tt);
+        Tm = d.Tm; Om = sp.Om; Rm = d.Rm;
+    }
+    const Eigen::MatrixXd & getTransitionFunction(size_t a) const { return Tm[a]; }
+    const UserSparseModel::SpC & getObservationFunction(size_t a) const { return Om[a]; }
+    const Eigen::MatrixXd & getRewardFunction() const { return Rm; }
+};
+struct UserMixedB : UserModel {      // sparse T (column-major), dense O (column-major)
+    std::vector<UserSparseModel::SpC> Tm; std::vector<Eigen::MatrixXd> Om; Eigen::MatrixXd Rm;
+    explicit UserMixedB(const Tables * tt) : UserModel{tt} {
+        UserEigenModel d(tt); UserSparseModel sp(tt);
+        Tm = sp.Tm; Om = d.Om; Rm = d.Rm;
+    }
+    const UserSparseModel::SpC & getTransitionFunction(size_t a) const { return Tm[a]; }
+    const Eigen::MatrixXd & getObservationFunction(size_t a) const { return Om[a]; }
+    const Eigen::MatrixXd & getRewardFunction() const { return Rm; }
+};
+static_assert(PO::IsModelEigen<UserMixedA> && PO::IsModelEigen<UserMixedB>, "mixed-storage user models must take the Eigen branch");
 static_assert(PO::IsModelEigen<UserSparseModel>, "UserSparseModel must take the Eigen branch");
 static_assert(PO::IsModelEigen<UserEigenModel>, "UserEigenModel must take the Eigen branch");
 static_assert(PO::IsModel<UserModel>, "UserModel must satisfy POMDP::IsModel");
@@ -356,6 +379,9 @@ struct Models {
     UserModel user;
     std::unique_ptr<UserEigenModel> userEigen;
     std::unique_ptr<UserSparseModel> userSparse;
+    std::unique_ptr<UserMixedA> userMixedA;
+    std::unique_ptr<UserMixedB> userMixedB;
+    int eigenVariant = 0;      // which user model fills the `usereigen` block: 0 dense column-major, 1 dense T + sparse O, 2 sparse T + dense O
     explicit Models(Tables tt, Route rt = RT_TABLE, int zeros = 0, bool compress = true) : t(std::move(tt)), route(rt) {
         if (route == RT_TABLE) {
         dense.reset(new DenseM(t.O, t.Ob, t.S, t.A, t.T, t.R, t.discount));
@@ -384,6 +410,8 @@ struct Models {
         user.t = &t;
         userEigen.reset(new UserEigenModel(&t));
         userSparse.reset(new UserSparseModel(&t));
+        userMixedA.reset(new UserMixedA(&t));
+        userMixedB.reset(new UserMixedB(&t));
         if (route != RT_TABLE) return;
         // the converting constructors: user-defined -> dense -> sparse
         denseFromUser.reset(new DenseM(user));
@@ -411,7 +439,10 @@ static void emitUpd(const Models & M, const AI::Vector & b, size_t a, bool exact
     l << "|" << "dense";   emitBlock(l, conv ? *M.denseFromUser : *M.dense, "dense", t, b, a, withSosa);
     l << "|" << "sparse";  emitBlock(l, spm, "sparse", t, b, a, withSosa);
     l << "|" << "generic"; emitBlock(l, M.user, "generic", t, b, a, withSosa);
-    l << "|" << "usereigen"; emitBlock(l, *M.userEigen, "usereigen", t, b, a, withSosa);
+    l << "|" << "usereigen";
+    if (M.eigenVariant == 1) emitBlock(l, *M.userMixedA, "usereigen", t, b, a, withSosa);
+    else if (M.eigenVariant == 2) emitBlock(l, *M.userMixedB, "usereigen", t, b, a, withSosa);
+    else emitBlock(l, *M.userEigen, "usereigen", t, b, a, withSosa);
     l << "|" << "usersparse"; emitBlock(l, *M.userSparse, "usersparse", t, b, a, withSosa);
     // the library's own P(o | b, a) (note the argument order: belief, observation, action)
     l << "|" << "pob";
@@ -717,7 +748,11 @@ static void runFixed(long idx) {
     for (size_t a = 0; a < t.A; ++a) {
         for (size_t c = 0; c < t.S; ++c) { AI::Vector b(t.S); b.setZero(); b[c] = 1.0; emitUpd(M, b, a, true); }
         { AI::Vector b(t.S); b.setZero(); b[0] = 0.5; b[t.S - 1] += 0.5; emitUpd(M, b, a, true); }
-        if (t.S == 3) { AI::Vector b(3); b << 0.125, 0.625, 0.25; emitUpd(M, b, a, true); emitUpd(M, b, a, true, true); }
+        if (t.S == 3) {
+            AI::Vector b(3); b << 0.125, 0.625, 0.25; emitUpd(M, b, a, true); emitUpd(M, b, a, true, true);
+            for (int v : {1, 2}) { M.eigenVariant = v; emitUpd(M, b, a, true); }
+            M.eigenVariant = 0;
+        }
     }
     // the helpers must tolerate a null output pointer (documented "basic nullptr check")
     {
@@ -778,6 +813,8 @@ static void verif_case_inner(Rng & rng, long idx, const std::string & tier) {
     Models M(std::move(tt), rt, zeros, compress);
     const bool exact = st != ST_UGLY && st != ST_NEAR;
     std::printf("#stat stream_%s 1\n#stat S_%zu 1\n#stat O_%zu 1\n", st == ST_DYADIC ? "dyadic" : st == ST_UGLY ? "ugly" : st == ST_TINY ? "tiny" : "near_accepted", S, O);
+    M.eigenVariant = (int)(idx % 3);
+    std::printf("#stat usereigen_variant_%d 1\n", M.eigenVariant);
     if (S <= 8) emitTabs(M);
     for (int k = 0; k < 3; ++k) {
         int shape = (int)rng.below(4);
